@@ -41,14 +41,18 @@ class Canonical:
     def bare(self, s):
         return False
 
+    def num(self, v):
+        return fmt_num(v)
+
 
 class Surface:
     """A Hypothesis-drawn surface: per-token letter case, separators, quote style, bare words."""
 
     fancy = True
 
-    def __init__(self, ch, comments=True, bare=True, stats=None, crlf=True, nospace_ccomment=True):
+    def __init__(self, ch, comments=True, bare=True, stats=None, crlf=True, nospace_ccomment=True, numbers=False):
         self.ch, self.comments, self.allow_bare, self.crlf = ch, comments, bare, crlf
+        self.numbers = numbers   # other spellings of the same number (MapServer's MS_NUMBER forms): +5 007 5. .5 5e-1 1E3
         self.nospace_ccomment = nospace_ccomment
         self.stats = stats if stats is not None else {}
 
@@ -86,6 +90,39 @@ class Surface:
             self._c("bare_word")
             return True
         return False
+
+    def num(self, v):
+        s = fmt_num(v)
+        if not self.numbers or not self.ch.chance(1, 3):
+            return s
+        ch = self.ch
+        neg = s.startswith("-")
+        body = s[1:] if neg else s
+        if isinstance(v, int) and not isinstance(v, bool):
+            alts = ["0" + body, "00" + body]
+        else:
+            alts = []
+            ip, _, fp = body.partition(".")
+            if fp == "0":
+                alts += [ip + ".", ip + ".00", ip + "e0", ip + ".0E+0"]
+            else:
+                alts += [body + "0", "0" + body]
+            if ip == "0" and fp not in ("", "0"):
+                alts.append("." + fp)
+            for e in ("%e" % abs(v), "%.3E" % abs(v), "%.12e" % abs(v), "%.17e" % abs(v)):
+                alts.append(e)
+            for m, x in ((abs(float(v)) * 1000, "e-3"), (abs(float(v)) / 100, "E+2")):
+                if "e" not in repr(m) and "inf" not in repr(m):
+                    alts.append(repr(m) + x)
+            alts = [a for a in alts if "inf" not in a and "nan" not in a and float(a) == abs(float(v))]
+        if not alts:
+            return s
+        body = ch.choice(alts)
+        sign = "-" if neg else ch.choice(["", "", "+"])
+        self._c("number_spelling")
+        out = sign + body
+        assert (int(out) if isinstance(v, int) else float(out)) == v, (out, v)
+        return out
 
     def sep(self, between_values=False):
         ch = self.ch
@@ -199,8 +236,8 @@ def _obj_tokens(obj, surf, path, out):
             out.append(Tok(surf.kw(it[1]), "key", path, i, kind="kw"))
             j = 0
             for a, b in it[2]:
-                out.append(Tok(fmt_num(a), "val", path, i, j, kind="num"))
-                out.append(Tok(fmt_num(b), "val", path, i, j + 1, kind="num"))
+                out.append(Tok(surf.num(a), "val", path, i, j, kind="num"))
+                out.append(Tok(surf.num(b), "val", path, i, j + 1, kind="num"))
                 j += 2
             out.append(Tok(surf.kw("end"), "blockend", path, i, kind="kw"))
         elif kind == "rep":
@@ -218,7 +255,7 @@ def atom_texts(cls, v, surf):
             return [(v, "bare")]
         return [(q(v, surf.quote(v)), "qstr")]
     if cls in ("int", "float"):
-        return [(fmt_num(v), "num")]
+        return [(surf.num(v), "num")]
     if cls == "bool":
         return [(surf.boolean(v), "kw")]
     if cls == "enum":
@@ -230,13 +267,13 @@ def atom_texts(cls, v, surf):
     if cls == "expr":
         return [(v["src"], "expr")]
     if cls == "nums":
-        return [(fmt_num(x), "num") for x in v]
+        return [(surf.num(x), "num") for x in v]
     if cls == "hexpair":
         return [(q(x, surf.quote(x)), "hex") for x in v]
     if cls == "binds":
         return [(x, "bind") for x in v]
     if cls == "mixed":
-        return [(x, "bind") if isinstance(x, str) else (fmt_num(x), "num") for x in v]
+        return [(x, "bind") if isinstance(x, str) else (surf.num(x), "num") for x in v]
     raise ValueError(cls)
 
 
